@@ -186,16 +186,23 @@ def check (L : Lattice) : PTy → Arg → Bool
       | .const _ _ (some _) _ => true
       | _ => false
 
-/-- `self.is_specialization_of(other)`; `none` = the `TypeError` that `issubclass`
-    raises when exactly one of the two `python_type`s is a tuple and the other is reached -/
-def isSpecializationOf (L : Lattice) : PTy → PTy → Option Bool
+/-- `self.is_specialization_of(other)`: only `PythonType`s over single classes are ordered (proper
+    subclass); a type given as a tuple of classes neither specializes nor is specialized -/
+def isSpecializationOf (L : Lattice) : PTy → PTy → Bool
+  | .py (.one a) _ _, .py (.one b) _ _ => L.sub a b && !L.sub b a
+  | _, _ => false
+
+/-- the same relation under the name the specification uses -/
+def specializes (L : Lattice) (a b : PTy) : Bool := isSpecializationOf L a b
+
+/-- `is_specialization_of` BEFORE commit 9bf7e72 (kept to document what the repair changed):
+    `none` = the `TypeError` that `issubclass` raised when exactly one of the two `python_type`s was a
+    tuple and the other was reached -/
+def isSpecializationOfOld (L : Lattice) : PTy → PTy → Option Bool
   | .py (.one a) _ _, .py (.one b) _ _ => some (L.sub a b && !L.sub b a)
   | .py (.many _) _ _, .py (.many _) _ _ => some false
   | .py (.one a) _ _, .py (.many bs) _ _ => if bs.any (L.sub a) then none else some false
   | .py (.many _) _ _, .py (.one _) _ _ => none
   | _, _ => some false
-
-/-- the same relation with the `TypeError` cases read as "not a specialization" -/
-def specializes (L : Lattice) (a b : PTy) : Bool := (isSpecializationOf L a b).getD false
 
 end Yaql.Types
